@@ -438,7 +438,7 @@ func runC15(c *Ctx) {
 		}
 		eciCases = append(eciCases, [2]int{3, v})
 	}
-	limit := c.Pick(2100, 16384)
+	limit := c.Pick(8192, 16384)
 	for v := 0; v < limit; v++ {
 		addAllForms(v)
 	}
@@ -450,7 +450,7 @@ func runC15(c *Ctx) {
 			eciCases = append(eciCases, [2]int{3, v})
 		}
 	} else {
-		for i := 0; i < 30000; i++ {
+		for i := 0; i < 100000; i++ {
 			addAllForms(r.Intn(1000000))
 		}
 	}
@@ -484,7 +484,7 @@ func runC15(c *Ctx) {
 			guess([]byte{byte(a), byte(b)}, cqrNoHint())
 		}
 	}
-	for i := 0; i < c.Pick(60000, 1500000); i++ {
+	for i := 0; i < c.Pick(300000, 4000000); i++ {
 		n := r.Range(0, 24)
 		if r.Chance(0.05) {
 			n = r.Range(25, 300)
@@ -638,7 +638,7 @@ func runC15(c *Ctx) {
 	})
 
 	// encoder-side: contents of the other modes and unknown hint names
-	for i := 0; i < c.Pick(400, 5000); i++ {
+	for i := 0; i < c.Pick(2000, 50000); i++ {
 		var text string
 		switch r.Intn(5) {
 		case 0:
@@ -694,7 +694,7 @@ func runC15(c *Ctx) {
 	}
 
 	// ---------------- no hint: valid UTF-8 reads back as itself ----------------
-	nu := c.Pick(3000, 60000)
+	nu := c.Pick(12000, 200000)
 	c.Parallel(nu, 16, func(i int, rr *Rng) {
 		var sb strings.Builder
 		n := rr.Range(1, 6)
@@ -737,7 +737,7 @@ func runC15(c *Ctx) {
 	})
 
 	// ---------------- decode-side CHARACTER_SET hint honoured for undesignated byte segments ----------------
-	nd := c.Pick(1500, 30000)
+	nd := c.Pick(8000, 200000)
 	for i := 0; i < nd; i++ {
 		var h cqrHint
 		var enc encoding.Encoding
